@@ -30,7 +30,7 @@ pub fn run(reg: &dyn Registry, ctx: &Ctx) -> Outcome {
         }
     }
     // long chains
-    let l = if thorough { 1 << 22 } else { 65536 };
+    let l = if thorough { 1 << 29 } else { 1 << 20 };
     let bases: Vec<Vec<u8>> = (0..8).map(|b| alphabet::bg_bytes(ctx.seed, 0x40B0 + b, len)).collect();
     let res: Vec<_> = bases.par_iter().map(|s| lockstep_model(ty, RefModel::Xor128, s, l)).collect();
     for r in res {
@@ -64,7 +64,7 @@ pub fn run(reg: &dyn Registry, ctx: &Ctx) -> Outcome {
                 }
             }
         }
-        Err(e) => ctx.violation("C04:extract", &format!("XorShiftRng: cannot extract the step matrix: {}", e), json!({"kind":"note"})),
+        Err(e) => ctx.machinery(&format!("XorShiftRng: cannot extract the step matrix (undecided): {}", e)),
     }
 
     // complete sub-cubes of each state word
